@@ -753,7 +753,7 @@ def forward_case(cuqi, meta, q):
     expr = "check_forward %s %s %s %s %s %s %s %s" % (coq_quirks(q), fwd, rgs.coq(), dgs.coq(), xin,
                                                       cbool(meta["flag"]), coq_obs(obs), cbool(okflag))
     fail = compare(obs, exp)
-    sig = classify(meta, fail) if fail else ""
+    sig = forward_signature(meta, obs, exp, q) if fail else ""
     base = meta["form"].split("=")[0]
     trivial = base == "par" and dgs.kind in ("default1d", "cont1d", "discrete") and rgs.kind in ("default1d", "cont1d", "discrete")
     cell = "fwd/%s/%s->%s/%s%s" % (meta["mk"], dgs.name(), rgs.name(), meta["form"], "" if meta["flag"] else "/flag=F")
@@ -853,7 +853,7 @@ def gradient_case(cuqi, meta, q):
     expr = "check_gradient %s %s %s %s %s %s %s %s %s %s" % (coq_quirks(q), gf, rgs.coq(), dgs.coq(), din, win,
                                                             cbool(dpar), cbool(wpar), coq_obs(obs), cbool(okflag))
     fail = compare_gradient(obs, exp, refusal_ok)
-    sig = classify(meta, fail) if fail else ""
+    sig = gradient_signature(meta, obs, exp, q) if fail else ""
     cell = "grad/%s/%s->%s/d:%s,w:%s" % (meta["mk"], dgs.name(), rgs.name(), meta["dform"], meta["wform"])
     return Case(expr=expr, meta=meta, cell=cell, trivial=all(x == 0 for x in d), kind="DECISION" if obs[0] == "err" else "EXACT",
                 impl_fail=fail, signature=sig)
@@ -972,39 +972,82 @@ def leak_config(m):
     return False
 
 
+def _strip(g):
+    return {k_: v_ for k_, v_ in g.d.items() if k_ not in ("grad", "gstyle")}
+
+
+def forward_signature(m, obs, exp, q):
+    """Signature of a failing forward case.  A known class is named only when (1) the probed tree HAS that defect,
+    (2) the configuration is in the class and (3) the observation is exactly what the defect predicts (the prediction is
+    computed here with the independent Fraction maps); anything else gets the generic per-cell signature."""
+    dg, rg = Geo(**m["dg"]), Geo(**m["rg"])
+    base = m["form"].split("=")[0]
+    arr = base in ("arrpar", "arrfun", "arrdefault")
+    err = obs[1] if obs[0] == "err" else None
+    vals = [ufs(c) for c in m["vals"]]
+    A = [[Fraction(a) for a in row] for row in m["A"]]
+    cs, b = ufs(m["cs"]), ufs(m["b"])
+    # 0-d output: the value is right, only the shape is () instead of (1,)
+    if rg.kind == "step" and rg.d["steps"] == 1 and obs[0] == "val" and exp[0] == "val" and obs[1] in (3, 4) \
+            and obs[1] - 3 == exp[1] and obs[2] == exp[2]:
+        return SIG_0D
+    if q[2] and arr and err == "EIndex" and dg.kind == "discrete" and rg.kind == "discrete" and dg.pdim != rg.pdim:
+        return SIG_EQIDX
+    if q[2] and arr and err == "EKey" and dg.kind in ("step", "mapped", "mapped_img", "cont1d") and dg.has_grad \
+            and not rg.has_grad and _strip(dg) == _strip(rg):
+        return SIG_EQKEY
+    if q[0] and arr and dg.kind == "default1d" and rg.kind in ("step", "sub1d") and rg.nfun == dg.nfun and not rg.d.get("grid") \
+            and m["mk"] not in ("pde_gw", "pde_jw", "pde_both", "pde_none") and obs[0] == "val" and obs[1] == 1:
+        # prediction: the output keeps the default geometry's tag and is "converted" by its identity fun2par
+        f = vals[0] if base == "arrfun" else dg.o_par2fun(vals[0])
+        if obs[2] == [o_F(A, cs, b, f)]:
+            return SIG_DEFEQ
+    if q[1] and base == "samplesfun" and not m["flag"]:
+        # prediction: every column is converted with par2fun once more (2-d items are left alone by the reshape)
+        try:
+            again = lambda c: ([horner(ufs(dg.d["cs"]), t) for t in c] if dg.kind == "mapped_img" else list(c)) if dg.twod else dg.o_par2fun(c)
+            pred = ("val", 2, [rg.o_fun2par(o_F(A, cs, b, again(c))) for c in vals])
+        except Refuse:
+            pred = ("err",)
+        if (pred[0] == "err" and err == "EValue") or (pred[0] == "val" and obs[0] == "val" and obs[1] == 2 and obs[2] == pred[2]):
+            return SIG_SAMPLES
+    return "Model.forward|%s:%s->%s:%s" % (base, dg.name(), rg.name(), m["mk"])
+
+
+def gradient_signature(m, obs, exp, q):
+    dg, rg = Geo(**m["dg"]), Geo(**m["rg"])
+    dbase, wbase = m["dform"].split("=")[0], m["wform"].split("=")[0]
+    err = obs[1] if obs[0] == "err" else None
+    darr = dbase in ("arrpar", "arrfun")
+    if q[2] and darr and err == "EIndex" and dg.kind == "discrete" and rg.kind == "discrete" and dg.pdim != rg.pdim:
+        return SIG_EQIDX
+    if q[2] and darr and err == "EKey" and rg.kind == "cont1d" and rg.has_grad and not dg.has_grad and _strip(dg) == _strip(rg):
+        return SIG_EQKEY            # the direction's tag (range geometry object with `gradient`) meets the domain geometry
+    if leak_config(m) and exp is not None:
+        # prediction: fun2par of the domain geometry applied to the correct gradient (or its refusal)
+        try:
+            pred = dg.o_fun2par(exp[2][0])
+        except Refuse:
+            pred = None
+        if (pred is None and err in ("EValue", "ENotImpl")) or (pred is not None and obs[0] == "val" and obs[2] == [pred]):
+            return SIG_TAGLEAK
+    return "Model.gradient|d=%s,w=%s:%s->%s:%s" % (dbase, wbase, dg.name(), rg.name(), m["mk"])
+
+
 def classify(meta, detail):
+    """called by bin/check for a case without a stored signature: re-run it and classify the observation"""
     m = meta.get("meta", meta)
     if m.get("witness"):
         return m["witness"]
     op = m.get("op")
-    if op == "forward":
-        dg, rg = Geo(**m["dg"]), Geo(**m["rg"])
-        base = m["form"].split("=")[0]
-        if base in ("arrpar", "arrfun", "arrdefault") and dg.kind == "default1d" and rg.kind in ("step", "sub1d") \
-                and rg.nfun == dg.nfun and not rg.d.get("grid"):
-            return SIG_DEFEQ
-        if base == "samplesfun" and not m["flag"]:
-            return SIG_SAMPLES
-        if base in ("arrpar", "arrfun") and dg.kind == "discrete" and rg.kind == "discrete" and dg.pdim != rg.pdim:
-            return SIG_EQIDX
-        strip = lambda g: {k_: v_ for k_, v_ in g.d.items() if k_ not in ("grad", "gstyle")}
-        if base in ("arrpar", "arrfun") and dg.kind in ("step", "mapped", "mapped_img", "cont1d") and dg.has_grad and not rg.has_grad \
-                and strip(dg) == strip(rg):
-            return SIG_EQKEY
-        if rg.kind == "step" and rg.d["steps"] == 1 and base not in ("samples", "samplesfun") and "0-d output" in str(detail):
-            return SIG_0D
-        return "Model.forward|%s:%s->%s:%s" % (base, dg.name(), rg.name(), m["mk"])
-    if op == "gradient":
-        dg, rg = Geo(**m["dg"]), Geo(**m["rg"])
-        if leak_config(m):
-            return SIG_TAGLEAK
-        if m["dform"].split("=")[0] in ("arrpar", "arrfun") and dg.kind == "discrete" and rg.kind == "discrete" and dg.pdim != rg.pdim:
-            return SIG_EQIDX
-        strip = lambda g: {k_: v_ for k_, v_ in g.d.items() if k_ not in ("grad", "gstyle")}
-        if m["dform"].split("=")[0] in ("arrpar", "arrfun") and rg.kind == "cont1d" and rg.has_grad and not dg.has_grad \
-                and strip(dg) == strip(rg):
-            return SIG_EQKEY            # the direction's tag (range geometry object with `gradient`) meets the domain geometry
-        return "Model.gradient|d=%s,w=%s:%s->%s:%s" % (m["dform"].split("=")[0], m["wform"].split("=")[0], dg.name(), rg.name(), m["mk"])
+    if op in ("forward", "gradient"):
+        import cuqi
+        q = probe(cuqi)
+        if op == "forward":
+            obs, exp, _ = run_forward_case(cuqi, m)
+            return forward_signature(m, obs, exp, q)
+        obs, exp, refusal_ok, _ = run_gradient_case(cuqi, m)
+        return gradient_signature(m, obs, exp, q)
     if op == "rename":
         return "Model.forward(distribution)|%s" % m["mk"]
     if op == "bind":
